@@ -8,6 +8,8 @@ From Compio.Model Require Import Base DriverKeys.
 From Compio.Thm Require Import DriverKeysThm.
 From Compio.Model Require Import PollDrv.
 From Compio.Thm Require Import PollDrvThm.
+From Compio.Gen Require Frag.
+From Compio.Thm Require FragWakeThm.
 
 (* the bookkeeping invariant (reference-count equation) holds in every state
    reachable by ANY sequence of events of any length, for any number of
@@ -117,3 +119,16 @@ Theorem C01_poller_user_data_is_queued : forall os fd,
   end.
 Proof. intros os fd. apply armed_iff_waiting. apply reachable_pinv. Qed.
 Print Assumptions C01_poller_user_data_is_queued.
+
+(* ---- source tie (translated from the Rust source on every run by tools/rs2v.py
+        into gen/Frag.v; an edit of the function changes the generated definition) ---- *)
+(* io_uring poll_entries (compio-driver/src/sys/driver/iour/mod.rs): an operation's completion is
+   handled as non-final (the model's ECqeMore: result pushed to the multishot queue, key kept in
+   in_flight, the leaked reference stays with the kernel) exactly when the condition of the source,
+   as it stands now, holds - the kernel's MORE flag and nothing else - and as the final completion
+   (ECqeFinal: in_flight.remove + Entry::notify) otherwise *)
+Theorem C01_completion_class_is_source : forall more k,
+  (if Frag.iour_cqe_more more then ECqeMore k else ECqeFinal k)
+  = (if more then ECqeMore k else ECqeFinal k).
+Proof. exact FragWakeThm.cqe_class_tie. Qed.
+Print Assumptions C01_completion_class_is_source.
